@@ -138,14 +138,15 @@ def tasks(tier, seed):
                 if len(sup) <= 3 or m == 1:
                     out.append(t("BoostedRandomDictator", m, sup, "boosted_random_dictator"))
     # four candidates: the second seat's branch is not forced (c = 3 after the first seat)
-    out.append(t("BoostedRandomDictator", 2, F.fam("A>B", "B>C>D", "D"), "boosted_random_dictator", cands=C.K4, budget_s=900))
+    out.append(t("BoostedRandomDictator", 2, F.fam("A>B", "B>C>D", "D"), "boosted_random_dictator", cands=C.K4, budget_s=900 if q else 3000))
     out.append(t("RandomDictator", 2, F.fam("A>B", "B>C>D", "D"), "random_dictator", cands=C.K4))
     if not q:
         f4 = F.fam("A>B", "B>C>D", "CD>A", "D")
         for sup in supports_of([f4], sizes=(2, 3)):
             for m in (1, 2, 3):
                 out.append(t("RandomDictator", m, sup, "random_dictator", cands=C.K4))
-                out.append(t("BoostedRandomDictator", m, sup, "boosted_random_dictator", cands=C.K4))
+                if m <= 2 and (len(sup) == 2 or m == 1):  # larger boosted laws over four candidates exceed the 40-minute task budget
+                    out.append(t("BoostedRandomDictator", m, sup, "boosted_random_dictator", cands=C.K4))
     for fam in [F.fam("A", "B", "C>A"), F.fam("A>B", "B>A", "C")] + ([] if q else [F.fam("A", "B", "C")]):
         for sup in supports_of([fam], sizes=(2, 3)):
             for m in (1, 2):
